@@ -160,9 +160,14 @@ def norm(node: ast.AST) -> str:
         return ast.dump(node)
 
 
+def _contains_call(e: ast.AST) -> bool:
+    return any(isinstance(n, ast.Call) for n in ast.walk(e))
+
+
 class _Canon(ast.NodeTransformer):
-    """Two value-preserving rewrites applied to every module before analysis, so that the rules see one shape for code that
-    differs only in these ways:
+    """Value-preserving rewrites applied to every module before analysis, so that the rules see one shape for code that
+    differs only in these ways (plus: single-use temporaries consumed by the next statement are substituted, see
+    _inline_single_use_temps):
       * `t = E; return t`  (t bound once, used only in that return)   ->  `return E`
       * `if a:\n    if b: X`  (no else on either, nothing else in the outer body)  ->  `if a and b: X`
     Line numbers are kept from the original statements."""
@@ -216,9 +221,87 @@ class _Canon(ast.NodeTransformer):
 
         fn.body = block(fn.body)
 
+    def _inline_single_use_temps(self, fn: ast.AST) -> None:
+        """`t = E; S` -> S with E for t, when t is stored once and loaded once in the whole function, the load is in the statement that
+        follows the store directly (not under a lambda / comprehension / nested function), and no call of S is evaluated before the load
+        (so no effect can come between E and its use).  Undoes "extract variable" on the first operand of a statement."""
+        loads: Dict[str, int] = {}
+        stores: Dict[str, int] = {}
+        for n in ast.walk(fn):
+            if isinstance(n, ast.Name):
+                d = loads if isinstance(n.ctx, ast.Load) else stores
+                d[n.id] = d.get(n.id, 0) + 1
+            elif isinstance(n, (ast.Global, ast.Nonlocal)):
+                for nm in n.names:
+                    stores[nm] = stores.get(nm, 0) + 5
+        params = {a.arg for a in ast.walk(fn) if isinstance(a, ast.arg)}
+
+        def usable(nxt: ast.stmt, name: str) -> Optional[ast.Name]:
+            if not isinstance(nxt, (ast.Assign, ast.Expr, ast.Return, ast.AugAssign, ast.AnnAssign)):
+                return None
+            hit: List[ast.Name] = []
+            blocked = False
+
+            def rec(x: ast.AST, deep: bool) -> None:
+                nonlocal blocked
+                if isinstance(x, ast.Name) and x.id == name and isinstance(x.ctx, ast.Load):
+                    if deep:
+                        blocked = True
+                    hit.append(x)
+                for c in ast.iter_child_nodes(x):
+                    rec(c, deep or isinstance(x, (ast.Lambda, ast.ListComp, ast.SetComp, ast.DictComp, ast.GeneratorExp, ast.FunctionDef,
+                                                   ast.IfExp, ast.BoolOp)))
+            rec(nxt, False)
+            if blocked or len(hit) != 1:
+                return None
+            u = hit[0]
+            # no call evaluated before the load
+            for c in ast.walk(nxt):
+                if isinstance(c, ast.Call) and not any(y is u for y in ast.walk(c)):
+                    if (c.lineno, c.col_offset) < (u.lineno, u.col_offset):
+                        return None
+                elif isinstance(c, ast.Call) and any(y is u for y in ast.walk(c.func)) is False and _contains_call(c.func):
+                    return None
+            if isinstance(nxt, ast.AugAssign):
+                return None if any(y is u for y in ast.walk(nxt.target)) else u
+            return u
+
+        def block(stmts: List[ast.stmt]) -> List[ast.stmt]:
+            out: List[ast.stmt] = []
+            i = 0
+            while i < len(stmts):
+                s = stmts[i]
+                nxt = stmts[i + 1] if i + 1 < len(stmts) else None
+                if isinstance(s, ast.Assign) and len(s.targets) == 1 and isinstance(s.targets[0], ast.Name) and nxt is not None \
+                        and isinstance(s.value, (ast.Call, ast.BinOp, ast.Subscript, ast.Attribute, ast.UnaryOp)):
+                    name = s.targets[0].id
+                    if stores.get(name, 0) == 1 and loads.get(name, 0) == 1 and name not in params:
+                        u = usable(nxt, name)
+                        if u is not None:
+                            class _Sub(ast.NodeTransformer):
+                                def visit_Name(self_inner, n):  # noqa: N805
+                                    return s.value if n is u else n
+                            stmts[i + 1] = _Sub().visit(nxt)
+                            i += 1
+                            continue
+                for f in ("body", "orelse", "finalbody"):
+                    sub = getattr(s, f, None)
+                    if isinstance(sub, list) and sub and isinstance(sub[0], ast.stmt) and not isinstance(s, (ast.FunctionDef, ast.AsyncFunctionDef, ast.ClassDef)):
+                        setattr(s, f, block(sub))
+                if isinstance(s, ast.Try):
+                    for h in s.handlers:
+                        h.body = block(h.body)
+                out.append(s)
+                i += 1
+            return out
+
+        fn.body = block(fn.body)
+
     def visit_FunctionDef(self, node):
         self.generic_visit(node)
         self._inline_return_temps(node)
+        if not os.environ.get("PQSTATIC_NO_INLINE_TEMPS"):
+            self._inline_single_use_temps(node)
         return node
 
     visit_AsyncFunctionDef = visit_FunctionDef
